@@ -15,6 +15,19 @@ func getState(p *parser) map[string]any { return p.cur.state }
 
 func stateOfCur(c *current) map[string]any { return c.state }
 
+// the InitState options of a case: a fresh Cloner cell per parse, or a plain int
+func initOpts(c *caseSpec) []Option {
+	var opts []Option
+	for _, kv := range c.init {
+		if kv.cell {
+			opts = append(opts, InitState(kv.key, &Cell{items: append([]int(nil), kv.items...)}))
+		} else {
+			opts = append(opts, InitState(kv.key, kv.imm))
+		}
+	}
+	return opts
+}
+
 func mkStateCode(run func(p *parser) error) any { return &stateCodeExpr{run: run} }
 
 // poolTest drives the real state-store bookkeeping (newParser, #{}-style writes, cloneState,
